@@ -20,7 +20,7 @@ func init() {
 			"(R3) row coherence: wherever a callback receives T.GetEntity(i) together with component pointers col.Get(j), i and j are the same expression and every col is a column of table T; " +
 			"(R4) deferred cleanup: in the batch entity removal no call that can free or move tables lies inside the loop over the selected tables; (R5) callbacks run under the internal lock (C07/R2); " +
 			"(R6) scratch exclusivity: while a function holds a scratch slice of the storage (taken into a local, not yet handed back) it calls no function that itself takes that scratch slice; (R9) what is put back into a scratch slot (`slot = list[:0]`) is on every path the slot's own buffer or freshly allocated memory, never a list that belongs to another owner (a cache entry's table list, a table's relation list), followed through re-slices, appends, locals, helper results and parameters; (R10) a batch plan describes each table by itself: no field of a per-table plan record built in the planning loop, and nothing used by a later loop over the records, is a variable that is declared outside the planning loop and overwritten inside it (a memoised destination, one accumulator for all tables) - flags, counters and the record list excepted. " +
-			"Not decided: equivalence of the resulting world with sequential execution; exactly-once across several source tables mapping to one destination.",
+			"(R11 = C04/R15) the deferred target cleanup walks its table list backwards while freeing tables; (R12 = C12/O6) no constructed value takes a field from a package-level variable that holds mutable memory (scratch slices are per world). Not decided: equivalence of the resulting world with sequential execution; exactly-once across several source tables mapping to one destination.",
 		TrustedBase: []string{"go/types, go/cfg", "rules C01/R4 and C07/R2"},
 		Rules: []Rule{
 			{ID: "C06/R1", Run: c06r1, Min: 1},
@@ -33,6 +33,8 @@ func init() {
 			{ID: "C06/R8", Run: c06r8, Min: 1},
 			{ID: "C06/R9", Run: c06r9, Min: 1},
 			{ID: "C06/R10", Run: c06r10, Min: 8},
+			{ID: "C04/R15", Run: c04r15, Min: 1},
+			{ID: "C12/O6", Run: c12o6, Min: 0},
 		},
 	})
 }
